@@ -3,9 +3,10 @@ import random
 from pipefam import *
 
 GEN = 'C13'
-MODEL_FN = 'Model/Pb.v:pb_encode/frame (vs MarshalBinary bytes), Model/Json.v:esc_string (vs encoding/json)'
+MODEL_FN = 'Model/Pb.v:pb_encode/frame (vs MarshalBinary bytes), Model/Render.v:json_default/text_default (vs MarshalJSON / MarshalText bytes, default configuration), Model/Json.v:esc_string (vs encoding/json)'
 RULE = ('stream mixed: histories of NetFlow v5/v9/IPFIX and sFlow datagrams through the auto pipe with a format that runs the '
-        'real json, text and bin drivers on every message: the bin bytes must equal the model\'s frame(pb_encode m) byte for '
+        'real json, text and bin drivers on every message: the bin bytes must equal the model\'s frame(pb_encode m) and the JSON '
+        'and text bytes the model\'s json_default / text_default (renderers: IP incl. RFC 5952, MAC, names, prefixes) byte for '
         'byte, json.Valid must hold, keys must be the configured fields in order, numeric columns must agree between JSON, '
         'text and protobuf, and the concatenated bin stream must split (protodelim reader loop) into exactly the messages '
         'written and re-marshal to the same bytes; stream jsonstr: ASCII strings (quotes, backslashes, control characters) '
@@ -16,7 +17,7 @@ RULE = ('stream mixed: histories of NetFlow v5/v9/IPFIX and sFlow datagrams thro
 TRUSTED = ['Coq 8.16.1 kernel (coqc)', 'extraction + ocaml/main.ml glue', 'Go harness harness/fmt.go (oracles: json.Valid, '
            'streaming key decoder, protodelim.UnmarshalFrom loop, proto.Unmarshal), bin/engine.py',
            'modelled, not verified: producer/proto/messages.go (formatter), format/*; protobuf-go and encoding/json are trusted libraries']
-ASSUMPTIONS = ['renderers (IP, MAC, time, names) are not modelled: their output is judged by json.Valid and cross-format agreement on the implementation',
+ASSUMPTIONS = ['the default configuration is modelled byte for byte (Model/Render.v, name tables regenerated from render.go / flow.pb.go); other configurations (renames, non-default renderers incl. datetime, custom fields) are judged by json.Valid and cross-format agreement on the implementation',
                'JSON escaping is modelled for ASCII; bytes >= 0x80 are judged by json.Valid only']
 STREAMS = [dict(name='mixed', stream=0, n=dict(quick=150, thorough=3000), timeout=120.0),
            dict(name='jsonstr', stream=1, n=dict(quick=2000, thorough=40000))]
@@ -95,6 +96,40 @@ def run(chk):
             bad.remove((a, o, m))
     chk.exhaustive.append('all 128 single ASCII bytes and all pairs of 16 special characters through encoding/json')
     resolve_scope_b(chk, me, bad, 'json-bytes', {}, None, None)
+    # renderer sweep under the default configuration: JSON and text BYTES of the implementation vs Model/Render.v.
+    # IPFIX records whose addresses run through every pattern of zero / non-zero 16-bit groups (all 256, RFC 5952
+    # compression), IPv4-mapped and short addresses, prefix lengths 0..255 over IPv4, IPv6 and mapped addresses,
+    # every protocol number 0..255 and beyond, ethertypes, MACs, ports, with one and several records
+    import props.c08 as c08
+    rngr = random.Random(chk.seed * 31 + 131)
+    sweep = []
+    for pat in range(256):
+        def v6(p):
+            b = b''
+            for g in range(8):
+                b += (rngr.randrange(1, 65536) if (p >> g) & 1 else 0).to_bytes(2, 'big')
+            return b
+        src = v6(pat)
+        dst = rngr.choice([v6(rngr.randrange(256)), bytes(10) + b'\xff\xff' + bytes(rngr.randrange(256) for _ in range(4)),
+                           bytes(16), bytes(15) + b'\x01'])
+        fields = [(27, 16), (28, 16), (29, 1), (30, 1), (4, 1), (56, 6), (80, 6), (7, 2), (11, 2), (62, 16), (63, 16)]
+        vals = [src, dst, bytes([rngr.choice([0, 1, 7, 8, 9, 32, 33, 64, 96, 97, 127, 128, 129, 255, rngr.randrange(256)])]),
+                bytes([rngr.randrange(256)]), bytes([pat]), bytes(rngr.randrange(256) for _ in range(6)),
+                bytes(rngr.randrange(256) for _ in range(6)), bytes(rngr.randrange(256) for _ in range(2)),
+                bytes(rngr.randrange(256) for _ in range(2)), v6(rngr.randrange(256)), v6(rngr.randrange(256))]
+        d = c08.nf_msg(10, (1, 1700000000, pat, 1), fields, vals)
+        sweep.append('fmtchk netflow none =0a000001 #7d0 #%x =%s' % (1700000000 * 10 ** 9 + pat, d.hex()))
+        # IPv4 with masks, protocol as 2 and 4 bytes (values above 255), v9
+        f4 = [(8, 4), (12, 4), (9, 1), (13, 1), (4, rngr.choice([2, 4])), (15, 4), (18, 4), (60, 1)]
+        pw = f4[4][1]
+        v4 = [bytes(rngr.randrange(256) for _ in range(4)), bytes(rngr.choice([0, 255, rngr.randrange(256)]) for _ in range(4)),
+              bytes([pat % 40]), bytes([rngr.randrange(256)]), rngr.choice([pat, 256 + pat, 65535]).to_bytes(4, 'big')[-pw:],
+              bytes(rngr.randrange(256) for _ in range(4)), bytes(rngr.randrange(256) for _ in range(4)), bytes([rngr.choice([4, 6, 0])])]
+        d = c08.nf_msg(9, (1000, 1700000000, pat, 2), f4, v4)
+        sweep.append('fmtchk netflow none =20010db8000000000000000000000001 #7d0 #%x =%s' % (1700000000 * 10 ** 9 + pat, d.hex()))
+    bad = run_scope_b(chk, me, sweep, 'render-sweep', {}, timeout=120.0)
+    chk.exhaustive.append('all 256 zero/non-zero group patterns of an IPv6 address, every protocol number 0..255, through the real JSON and text drivers (default configuration): %d messages' % len(sweep))
+    resolve_scope_b(chk, me, bad, 'render-sweep', {}, None, None)
     # generated formatter configurations, implementation-side oracles
     rng = random.Random(chk.seed * 31 + 13)
     ncfg = dict(quick=40, thorough=600)[chk.tier]
